@@ -268,6 +268,18 @@ impl<MAC, RAC> RefOps for LayerRef<TB, MAC, RAC> {
 struct Script<'a> {
     req: &'a Value,
     log: &'a RefCell<Vec<Value>>,
+    /// set by every `&mut self` callback: a layer whose types depend on what its callbacks found out (`types_before` in the request
+    /// is what types() answers until then) - libcnb asks for the types after the callbacks
+    decided: std::cell::Cell<bool>,
+}
+
+impl Script<'_> {
+    fn types(&self) -> LayerTypes {
+        match self.req.get("types_before").filter(|t| !t.is_null() && !self.decided.get()) {
+            Some(t) => types_from(t),
+            None => types_from(&self.req["types"]),
+        }
+    }
 }
 
 fn listing(p: &Path) -> Vec<String> {
@@ -394,18 +406,21 @@ macro_rules! scripted_layer {
             type Buildpack = TB;
             type Metadata = $meta;
             fn types(&self) -> LayerTypes {
-                types_from(&self.0.req["types"])
+                self.0.types()
             }
             fn create(&mut self, _: &BuildContext<TB>, layer_path: &Path) -> Result<LayerResult<$meta>, TErr> {
+                self.0.decided.set(true);
                 self.0.log.borrow_mut().push(json!({"cb": "create", "path": layer_path.to_string_lossy(), "listing": listing(layer_path)}));
                 let spec = &self.0.req["create"];
                 result_from(spec, $mk(spec.get("metadata_value").and_then(Value::as_str).unwrap_or("")), layer_path)
             }
             fn existing_layer_strategy(&mut self, _: &BuildContext<TB>, d: &LayerData<$meta>) -> Result<ExistingLayerStrategy, TErr> {
+                self.0.decided.set(true);
                 self.0.log.borrow_mut().push(json!({"cb": "strategy", "data": layer_data_json(d)}));
                 strategy_from(&self.0.req["strategy"])
             }
             fn update(&mut self, _: &BuildContext<TB>, d: &LayerData<$meta>) -> Result<LayerResult<$meta>, TErr> {
+                self.0.decided.set(true);
                 self.0.log.borrow_mut().push(json!({"cb": "update", "data": layer_data_json(d)}));
                 let spec = &self.0.req["update"];
                 result_from_with(spec, $mk(spec.get("metadata_value").and_then(Value::as_str).unwrap_or("")), &d.path, Some(&d.env))
@@ -432,9 +447,10 @@ impl Layer for DefaultsLayer<'_> {
     type Buildpack = TB;
     type Metadata = V1;
     fn types(&self) -> LayerTypes {
-        types_from(&self.0.req["types"])
+        self.0.types()
     }
     fn create(&mut self, _: &BuildContext<TB>, layer_path: &Path) -> Result<LayerResult<V1>, TErr> {
+        self.0.decided.set(true);
         self.0.log.borrow_mut().push(json!({"cb": "create", "path": layer_path.to_string_lossy(), "listing": listing(layer_path)}));
         let spec = &self.0.req["create"];
         result_from(spec, V1 { v: spec.get("metadata_value").and_then(Value::as_str).unwrap_or("").to_string() }, layer_path)
@@ -715,7 +731,7 @@ pub fn handle(st: &mut State, req: &Value) -> Value {
             let ctx = st.ctx.as_ref().expect("init first");
             let name: LayerName = jstr(req, "name").parse().expect("layer name");
             let log: RefCell<Vec<Value>> = RefCell::new(Vec::new());
-            let script = Script { req, log: &log };
+            let script = Script { req, log: &log, decided: std::cell::Cell::new(false) };
             let res = match jstr(req, "impl") {
                 "v1" => ctx.handle_layer(name, LayerV1(script)).map(|d| layer_data_json(&d)),
                 "v2" => ctx.handle_layer(name, LayerV2(script)).map(|d| layer_data_json(&d)),
